@@ -409,7 +409,10 @@ def run_check(prop_mod, tier, verif_seed, nruns=None, workers=None, wall_cap=Non
         # in-process oracles: taken from the first interpreter (they are pure functions of the item)
         for i, ln in sorted(base['items'].items()):
             for v in ln['viol']:
-                key = (v['cls'], v['signature'])
+                # violations are grouped by class, signature AND the recorded finding their own features match
+                # (or none): a recorded finding must never absorb another violation with the same signature
+                kf = runner.match_known(known, 'C04', NAME, v)
+                key = (v['cls'], v['signature'], kf['id'] if kf is not None else '')
                 ent = violations.setdefault(key, [None, v, 0, i])
                 ent[2] += 1
         # cross-seed comparison
@@ -417,7 +420,7 @@ def run_check(prop_mod, tier, verif_seed, nruns=None, workers=None, wall_cap=Non
             for i, ln in results[h]['items'].items():
                 if ln['d'] != base['items'][i]['d']:
                     item = corpus_item(verif_seed, i)
-                    key = ('HASH_SEED', 'result-depends-on-hash-seed:' + item['v'])
+                    key = ('HASH_SEED', 'result-depends-on-hash-seed:' + item['v'], '')
                     ent = violations.setdefault(key, [{'config': {}, 'item': item, 'hashseeds': [done[0], h]}, None, 0, i])
                     ent[2] += 1
     out_lines = []
@@ -436,7 +439,8 @@ def run_check(prop_mod, tier, verif_seed, nruns=None, workers=None, wall_cap=Non
         fv = None
         if st == 'ok':
             for v in res.get('violations', ()):
-                if (v['cls'], v['signature']) == key:
+                kf = runner.match_known(known, 'C04', NAME, v)
+                if (v['cls'], v['signature'], kf['id'] if kf is not None else '') == key:
                     fv = v
         fv = fv or viol or {'cls': key[0], 'signature': key[1], 'detail': 'not reproduced in a fresh process', 'features': []}
         k = runner.match_known(known, 'C04', NAME, fv)
@@ -444,7 +448,7 @@ def run_check(prop_mod, tier, verif_seed, nruns=None, workers=None, wall_cap=Non
             known_hits.setdefault(k['id'], [k, 0, fv])[1] += count
             continue
         os.makedirs(replay_dir, exist_ok=True)
-        path = os.path.join(replay_dir, 'c04-%s.json' % runner.sig_hash(key[0] + '|' + key[1]))
+        path = os.path.join(replay_dir, 'c04-%s.json' % runner.sig_hash(key[0] + '|' + key[1] + '|' + key[2]))
         with open(path, 'w') as fp:
             json.dump({'format': 1, 'property': 'C04', 'arm': NAME, 'verif_seed': verif_seed, 'run': i, 'tier': tier,
                        'case': case, 'verdict': {'cls': key[0], 'signature': key[1], 'detail': fv.get('detail'),
